@@ -134,6 +134,10 @@ func (g *Gen) pick(s []string) string { return s[g.R.Intn(len(s))] }
 func (g *Gen) tick() int64 {
 	r := g.R.Intn(1000)
 	var d int64
+	if g.P.ClockSteps && g.R.Intn(25) == 0 {
+		g.now -= int64(g.R.Intn(1900)+1) * 1e6
+		return g.now
+	}
 	switch {
 	case r < 700:
 		d = int64(g.R.Intn(5000)+1) * 1e6
